@@ -13,13 +13,17 @@ Record case := mkCase {
                             7 placeholder data cannot be saved, 8 initialisation sequence fails,
                             9 never-stop fan stalled at max PWM, 10 ... after the minimum was raised step by step,
                             11 cancelled while a control cycle is in flight (released after the other actors returned),
-                            12 cancelled with a tick pending *)
+                            12 cancelled with a tick pending,
+                            13 / 14 as 5 / 9, then the controller is kept alive for more than a second before the shutdown *)
   c_top : Z;             (* PWM at which the start-up activity leaves the fan *)
   o_ret : Z;             (* 0 nil, 1 error, 2 panic, 3 did not return *)
   o_touched : bool;      (* some write reached the fan *)
   o_dev : dev;
   o_evals : Z;           (* curve evaluations (= control cycles) until Run returned *)
   c_norpm : bool;        (* fan without RPM input (no RPM monitor actor) *)
+  o_mid : dev;           (* device while the controller still lives, some time after it gave the fan up (scenarios 13/14; else = o_dev) *)
+  o_late : dev;          (* device 250 ms after Run returned and everything in flight was released (scenarios 11/12; else = o_dev) *)
+  o_mode_tried : bool;   (* after the control error the restore asked the fan for its original mode *)
 }.
 
 Definition plan_ok : rplan := mkPlan WOk WOk ROk WOk.
@@ -35,7 +39,7 @@ Definition sched_of (c : case) : list event :=
   match c_scn c with
   | 1 | 2 | 3 => [ok; ok; Advance 0%nat (mk false true false false (left c)); Advance 0%nat (mk true false false false (left c))]
   | 4 => ticking ++ [Tick 0%nat (mkTick (left c) true plan_gone); SigRecv; RpmDone 0%nat]
-  | 5 | 9 | 10 => ticking ++ [Tick 0%nat (mkTick (left c) true plan_ok); SigRecv; RpmDone 0%nat]
+  | 5 | 9 | 10 | 13 | 14 => ticking ++ [Tick 0%nat (mkTick (left c) true plan_ok); SigRecv; RpmDone 0%nat]
   | 6 | 11 | 12 => ticking ++ [SigRecv; ok; RpmDone 0%nat]
   | 7 => [ok; ok; Advance 0%nat (mk true true true false (left c))]
   | 8 => [ok; ok; Advance 0%nat (mk true true false false (left c))]
@@ -59,8 +63,8 @@ Definition agrees (D : Defects) (c : case) : bool :=
       && (o_ret c =? (if c_err m then 1 else 0))
       && Bool.eqb (o_touched c) (c_touched m)
       && (negb (c_touched m)
-          || (((c_scn c =? 4) || (pwm (c_dev m) =? pwm (o_dev c)))
-              && (negb (csup c) || (mode (c_dev m) =? mode (o_dev c)))))
+          || (forallb (fun o => ((c_scn c =? 4) || (pwm (c_dev m) =? pwm o)) && (negb (csup c) || (mode (c_dev m) =? mode o)))
+                      [o_dev c; o_mid c; o_late c]))
   | _, _ => false
   end.
 
@@ -68,19 +72,29 @@ Definition mismatch (c : case) : bool := negb (agrees repaired c).
 
 (* never a panic, Run returns; a fan that was touched is handed back or at 255,
    unless the device had vanished (scenario 4: every write of the restore fails) *)
+(* the escape of scenario 4 (every write fails) is only available after the hand-back was tried *)
+Definition gone_escape (c : case) : bool :=
+  (c_scn c =? 4) && (negb (csup c && negb (mode (c_orig c) =? manual)) || o_mode_tried c).
+
 Definition holdsb (c : case) : bool :=
   ((o_ret c =? 0) || (o_ret c =? 1))
-  && (negb (o_touched c) || safeb (csup c) (c_orig c) (o_dev c) || (c_scn c =? 4)).
+  && (negb (o_touched c)
+      || forallb (safeb (csup c) (c_orig c)) [o_dev c; o_mid c; o_late c]
+      || gone_escape c).
 
 Lemma holdsb_spec c :
   holdsb c = true <->
   (o_ret c = 0 \/ o_ret c = 1) /\
-  (o_touched c = true -> safe (csup c) (c_orig c) (o_dev c) \/ c_scn c = 4).
+  (o_touched c = true ->
+   (safe (csup c) (c_orig c) (o_dev c) /\ safe (csup c) (c_orig c) (o_mid c) /\ safe (csup c) (c_orig c) (o_late c))
+   \/ gone_escape c = true).
 Proof.
-  unfold holdsb. rewrite andb_true_iff, !orb_true_iff, !Z.eqb_eq, negb_true_iff, safeb_spec.
+  unfold holdsb. cbn [forallb]. rewrite andb_true_r.
+  rewrite andb_true_iff, !orb_true_iff, !andb_true_iff, !Z.eqb_eq, negb_true_iff, !safeb_spec.
   split.
-  - intros [R [[T|S]|G]]; split; auto; intros H; try congruence; auto.
-  - intros [R H]. split; auto. destruct (o_touched c); auto. destruct (H eq_refl); auto.
+  - intros [R H]. split; [exact R|]. intros T. destruct H as [[H|H]|H]; [congruence|left; tauto|right; exact H].
+  - intros [R H]. split; [exact R|]. destruct (o_touched c); [|left; left; reflexivity].
+    destruct (H eq_refl) as [S|G]; [left; right; tauto|right; exact G].
 Qed.
 
 Definition finding_code (c : case) : Z := 0.
